@@ -12,7 +12,7 @@
    the correspondence check. *)
 From Coq Require Import List Arith Bool Ascii NArith.
 Import ListNotations.
-From Onet Require Import Base.C13Bytes Tree.Ids Tree.IdsCheck Tree.IdsProofs.
+From Onet Require Import Base.C13Bytes Tree.Ids Tree.IdsCheck Tree.IdsProofs Tree.IdsCase Corr.C13Proofs.
 
 (* ---- tokens: any difference in any field ---- *)
 Theorem c13_token_distinct : forall (U5 : bytes -> bytes) t1 t2,
@@ -197,3 +197,71 @@ Theorem c13_checker_sameness :
   (forall a b, roster_cls a b = 4 <-> roster_pre a = roster_pre b).
 Proof. exact checker_sameness. Qed.
 Print Assumptions c13_checker_sameness.
+
+(* pre-images of different kinds (token / tree / server / protocol) never coincide *)
+Theorem c13_kinds_separated : forall f (H256 : bytes -> bytes) t rid tr k n,
+  token_url t <> tree_url f H256 rid tr /\
+  token_url t <> server_url k /\
+  token_url t <> proto_url n /\
+  tree_url f H256 rid tr <> server_url k /\
+  tree_url f H256 rid tr <> proto_url n /\
+  server_url k <> proto_url n.
+Proof. exact kinds_separated. Qed.
+Print Assumptions c13_kinds_separated.
+
+(* ---- what "no violation" of the correspondence checker means, per kind ----
+   (for every literal type L and decoder unlit; Corr/C13.v instantiates them) *)
+Theorem c13_check_rosters : forall (L : Type) (unlit : L -> bytes) (kt : @ktab L) items,
+  gcheck unlit (CRosters kt items) = [] <->
+  exists ks es,
+    dec_ktab unlit kt = Some ks /\ opt_all (map (entry_roster unlit ks) items) = Some es /\
+    flat_map fst es = [] /\
+    ForallOrdPairs (fun a b => roster_bins (fst a) = roster_bins (fst b) <-> snd a = snd b)
+                   (flat_map snd es).
+Proof. exact (@check_rosters_nil). Qed.
+Print Assumptions c13_check_rosters.
+
+Theorem c13_check_trees : forall (L : Type) (unlit : L -> bytes) (kt : @ktab L) items,
+  gcheck unlit (CTrees kt items) = [] <->
+  exists ks es,
+    dec_ktab unlit kt = Some ks /\ opt_all (map (entry_tree unlit ks) items) = Some es /\
+    flat_map fst es = [] /\
+    ForallOrdPairs (fun a b => (fst (fst a) = fst (fst b) /\ tree_bins (snd (fst a)) = tree_bins (snd (fst b)))
+                               <-> snd a = snd b)
+                   (flat_map snd es).
+Proof. exact (@check_trees_nil). Qed.
+Print Assumptions c13_check_trees.
+
+Theorem c13_check_tokens : forall (L : Type) (unlit : L -> bytes) (items : list (@itoken L * @obs L)),
+  gcheck unlit (CTokens items) = [] <->
+  exists es,
+    opt_all (map (entry_token unlit) items) = Some es /\ flat_map fst es = [] /\
+    ForallOrdPairs (fun a b => fst a = fst b <-> snd a = snd b) (flat_map snd es).
+Proof. exact (@check_tokens_nil). Qed.
+Print Assumptions c13_check_tokens.
+
+Theorem c13_check_names : forall (L : Type) (unlit : L -> bytes) (items : list (L * @obs L)),
+  (gcheck unlit (CProtos items) = [] <->
+   exists es,
+     opt_all (map (entry_name unlit) items) = Some es /\ flat_map fst es = [] /\
+     ForallOrdPairs (fun a b => fst a = fst b <-> snd a = snd b) (flat_map snd es)) /\
+  gcheck unlit (CServices items) = gcheck unlit (CProtos items).
+Proof. exact (@check_names_nil). Qed.
+Print Assumptions c13_check_names.
+
+Theorem c13_check_keys : forall (L : Type) (unlit : L -> bytes) kind (kt : @ktab L) items,
+  gcheck unlit (CKeys kind kt items) = [] <->
+  exists ks es,
+    dec_ktab unlit kt = Some ks /\ opt_all (map (entry_key unlit ks) items) = Some es /\
+    flat_map fst es = [] /\
+    ForallOrdPairs (fun a b => kbin (fst a) = kbin (fst b) <-> snd a = snd b) (flat_map snd es).
+Proof. exact (@check_keys_nil). Qed.
+Print Assumptions c13_check_keys.
+
+(* a legal object raises no clause of its own iff its first result is a 16-byte
+   id and every recomputation (same call, second route, fresh process) agrees *)
+Theorem c13_check_legal_object : forall (X : Type) (x : X) (o : dobs) (with_alt : bool),
+  fst (legal_entry x o with_alt) = [] <->
+  exists b, first_res o = Some (RId b) /\ length b = 16 /\ stable o with_alt = true.
+Proof. exact (@legal_entry_nil). Qed.
+Print Assumptions c13_check_legal_object.
